@@ -35,6 +35,15 @@ import (
 //   padding byte inconsistent with the length (0, or larger than what follows the header): not judged, only
 //                              "no crash" (SRTP authenticates but does not validate padding, so these can arrive).
 // Inputs whose RTP *header* does not parse are not generated: the SRTP layer rejects them before this code.
+//
+// "Those of the primary stream" is judged under every way the two streams can have become known to the receiver:
+// SSRC-declared receivers (primary and repair configured together) and RID-based simulcast receivers, whose streams
+// PeerConnection binds one by one in packet-arrival order. For the latter the case draws a binding history
+// (c26GenHistory): 1..3 layers, the primary / repair streams of the judged and the other layers in a random order, an
+// independent startImmediately flag per bind, application reads between the binds, or one RTX packet that arrives
+// while its primary stream is still unbound. Every RTX packet fed after both streams of the judged layer are bound is
+// judged in full. The one packet fed before the primary stream was bound is judged on everything except SSRC and PT
+// (the receiver had no way to know them yet; what it delivers is recorded as model_divergence).
 
 type c26Feed struct {
 	idle chan struct{}
@@ -75,6 +84,147 @@ func c26Sentinel(pt uint8, ssrc uint32) []byte {
 	copy(b[12:], c26SentinelBody)
 
 	return b
+}
+
+// c26Parked is the repair reader of a simulcast layer the monitor does not feed: it blocks until the case ends.
+type c26Parked struct{ stop chan struct{} }
+
+func (p *c26Parked) Read([]byte, interceptor.Attributes) (int, interceptor.Attributes, error) {
+	<-p.stop
+
+	return 0, nil, io.EOF
+}
+
+// c26Bind is one stream of a RID-based (simulcast, no SSRC in the SDP) receiver getting bound. PeerConnection binds
+// such streams one by one, in the order in which the first packet of each SSRC happens to arrive
+// (handleIncomingSSRC → receiveForRid for a packet carrying rid, receiveForRtx for one carrying rrid), each with the
+// startImmediately flag the interceptor chain / buffer factory of that stream produced.
+type c26Bind struct {
+	rid    string
+	repair bool
+	eager  bool // startImmediately
+	target bool // a stream of the layer whose track is read and judged
+	ssrc   uint32
+}
+
+// c26History is a binding history of a simulcast receiver with 1..3 layers: the streams of the judged layer and of the
+// other layers (each bound or not) in a random order with independent startImmediately flags, optionally with
+// application reads between the two binds of the judged layer (primary first) or an RTX packet arriving between them
+// (repair first with a running repair reader).
+type c26History struct {
+	rids           []string
+	target         string
+	ops            []c26Bind
+	repairFirst    bool
+	eagerP, eagerR bool
+	readsBetween   int  // primary packets the application reads before the repair stream of its layer appears
+	early          bool // one RTX packet arrives while the primary stream of its layer is still unbound
+}
+
+func c26GenHistory(r *kit.Rand, primarySSRC, rtxSSRC uint32) c26History {
+	pool := []string{"lo", "hi", "q", "h", "f", "0", "1", "2", "a", "layer-3"}
+	kit.Shuffle(r, pool)
+	h := c26History{rids: append([]string(nil), pool[:r.Range(1, 3)]...)}
+	h.target = kit.Pick(r, h.rids)
+	h.eagerP, h.eagerR = r.Bool(), r.Bool()
+	used := map[uint32]bool{0: true, primarySSRC: true, rtxSSRC: true}
+	fresh := func() uint32 {
+		for {
+			if v := r.Uint32(); !used[v] {
+				used[v] = true
+
+				return v
+			}
+		}
+	}
+	for _, rid := range h.rids {
+		if rid == h.target {
+			h.ops = append(h.ops, c26Bind{rid: rid, target: true, eager: h.eagerP, ssrc: primarySSRC},
+				c26Bind{rid: rid, repair: true, target: true, eager: h.eagerR, ssrc: rtxSSRC})
+
+			continue
+		}
+		if r.Chance(0.7) {
+			h.ops = append(h.ops, c26Bind{rid: rid, eager: r.Bool(), ssrc: fresh()})
+		}
+		if r.Chance(0.6) {
+			h.ops = append(h.ops, c26Bind{rid: rid, repair: true, eager: r.Bool(), ssrc: fresh()})
+		}
+	}
+	kit.Shuffle(r, h.ops)
+	for _, op := range h.ops {
+		if op.target {
+			h.repairFirst = op.repair
+
+			break
+		}
+	}
+	if h.repairFirst {
+		h.early = h.eagerR && r.Bool()
+	} else if r.Chance(0.3) {
+		h.readsBetween = r.Range(1, 3)
+	}
+
+	return h
+}
+
+// Class names the part of the history that concerns the judged layer.
+func (h c26History) Class() string {
+	s := "primary-first"
+	if h.repairFirst {
+		s = "repair-first"
+	}
+	if h.eagerP {
+		s += "/eagerP"
+	} else {
+		s += "/lazyP"
+	}
+	if h.eagerR {
+		s += "/eagerR"
+	} else {
+		s += "/lazyR"
+	}
+	if h.readsBetween > 0 {
+		s += "/reads-before-repair-bound"
+	}
+	if h.early {
+		s += "/rtx-before-primary-bound"
+	}
+
+	return s
+}
+
+func (h c26History) String() string {
+	var s []string
+	for _, op := range h.ops {
+		x := "P(" + op.rid
+		if op.repair {
+			x = "R(" + op.rid
+		}
+		if op.eager {
+			x += ",eager"
+		}
+		x += ")"
+		if op.target {
+			x = "*" + x
+		}
+		s = append(s, x)
+	}
+
+	return fmt.Sprintf("layers=%v judged=%s binds=%s", h.rids, h.target, strings.Join(s, " "))
+}
+
+// c26Fed is one generated RTX packet together with the oracle's expectation, computed when the packet is handed over.
+type c26Fed struct {
+	in      c26Input
+	verdict string
+	want    []byte
+	hdrLen  int
+	osn     uint16
+	body    []byte
+	pad     int
+	trackPT uint8
+	detail  map[string]any
 }
 
 type c26Input struct {
@@ -285,6 +435,8 @@ func TestVerifC26(t *testing.T) { //nolint:gocyclo,cyclop,maintidx
 	run := kit.Start(t, "C26", "seeded RTX packets built with pion/rtp Marshal (CSRC 0..15; no / one-byte / two-byte / RFC 3550 extension of 0..16 words; padding 0..255; "+
 		"payload = OSN‖body, body 0..MTU−header; random marker/timestamp/sequence) fed one at a time through a fake repair reader into a real RTPReceiver, plus too-short "+
 		"packets (payload 0 or 1 byte, padding-only), truncations behind the header and inconsistent padding counts; the primary PT is changed between packets; "+
+		"receivers are SSRC-declared or RID-based simulcast receivers with a seeded binding history (1..3 layers, primary/repair streams of all layers bound in random order, "+
+		"startImmediately per bind, reads between the binds, an RTX packet before the primary stream is bound); "+
 		"a packet is non-trivial when it is a well-formed RTX packet with at least one of CSRC / extension / padding; distinct by packet bytes + track PT/SSRC")
 	defer run.Finish()
 	run.Assume("packets whose RTP header does not parse never reach the RTX rewrite (the SRTP read stream rejects them); they are not generated")
@@ -326,6 +478,7 @@ func TestVerifC26(t *testing.T) { //nolint:gocyclo,cyclop,maintidx
 		_, _ = curFile.WriteAt(b, 0)
 	}
 
+	samplesGeneric, samplesRepairFirst := 0, 0
 	n := kit.N(8000, 200000)
 	for i := 0; i < n; i++ {
 		if !run.Want(i) {
@@ -340,9 +493,8 @@ func TestVerifC26(t *testing.T) { //nolint:gocyclo,cyclop,maintidx
 		rtxSSRC := primarySSRC ^ 0x5A5A5A5A | 2
 		rtxPT := uint8(r.Range(1, 127))
 		curPT := kit.Pick(r, pts)
-		ridMode := r.Chance(0.3)
-		immediate := r.Bool()
-		rtxFirst := immediate && r.Chance(0.1) // probe: an RTX packet is read before any primary packet
+		ridMode := r.Chance(0.4)
+		immediate := r.Bool() // SSRC-declared receivers: startImmediately of the repair stream
 
 		receiver, err := api.NewRTPReceiver(kind, &DTLSTransport{api: api})
 		if err != nil {
@@ -352,23 +504,152 @@ func TestVerifC26(t *testing.T) { //nolint:gocyclo,cyclop,maintidx
 		}
 		primary := &c26Primary{pkt: func() []byte { return c26Sentinel(curPT, primarySSRC) }}
 		feed := &c26Feed{idle: make(chan struct{}), in: make(chan []byte), attr: r.Bool()}
+		parked := &c26Parked{stop: make(chan struct{})}
+		cleanup := func() {
+			close(feed.in)
+			close(parked.stop)
+			_ = receiver.Stop()
+		}
 		var track *TrackRemote
 		var setupErr error
-		if ridMode {
-			receiver.configureReceive(RTPReceiveParameters{Encodings: []RTPDecodingParameters{
-				{RTPCodingParameters: RTPCodingParameters{RID: "lo"}}, {RTPCodingParameters: RTPCodingParameters{RID: "hi"}},
-			}})
+		var hist c26History
+		histClass, bindTag := "ssrc-declared", ""
+		modelPT := uint8(0)
+		readerIdle := false // the repair reader goroutine is known to sit in feed.Read, waiting for the next packet
+		waitIdle := func() bool {
+			select {
+			case <-feed.idle:
+				readerIdle = true
+
+				return true
+			case <-time.After(watchdog):
+				return false
+			}
+		}
+		buf := make([]byte, mtu)
+		readSentinel := func() bool { // reads one primary packet; returns false if something else came out
+			nn, _, rerr := track.Read(buf)
+
+			return rerr == nil && bytes.Equal(buf[:nn], c26Sentinel(curPT, primarySSRC))
+		}
+		// prepare generates the next RTX packet and what the oracle expects for it, given what the track knows now
+		prepare := func(k int) *c26Fed {
+			in := c26Gen(r, rtxPT, rtxSSRC, mtu)
+			if in.raw == nil {
+				run.Inconclusive("generator-marshal-failed")
+
+				return nil
+			}
+			f := &c26Fed{in: in, trackPT: modelPT}
+			f.verdict, f.want, f.hdrLen, f.osn, f.body, f.pad = c26Expect(in.raw, modelPT, primarySSRC)
+			if f.verdict == "skip" {
+				run.Count("skipped_header_unparseable", 1)
+
+				return nil
+			}
+			f.detail = map[string]any{
+				"packet_index": k, "rtx_packet": kit.Hex(in.raw), "class": in.class, "layout": in.layout, "track_pt": modelPT, "primary_ssrc": primarySSRC,
+				"rtx_ssrc": rtxSSRC, "rid_mode": ridMode, "start_immediately": immediate, "header_len": f.hdrLen, "osn": f.osn, "padding": f.pad,
+				"expected": kit.Hex(f.want), "oracle_verdict": f.verdict, "binding": histClass,
+			}
+			if ridMode {
+				f.detail["binding_history"] = hist.String()
+				f.detail["start_immediately"] = fmt.Sprintf("primary=%v repair=%v", hist.eagerP, hist.eagerR)
+			}
+
+			return f
+		}
+		// send hands the packet to the repair reader goroutine and returns when the goroutine asks for the next one,
+		// i.e. when the packet was either queued for TrackRemote.Read or dropped
+		send := func(f *c26Fed) bool {
+			// crash witness: saved before the packet is handed to the reader goroutine
+			if cj, jerr := json.Marshal(map[string]any{
+				"property": "C26", "seed": kit.Seed(), "tier": kit.Tier(), "case": i, "sig": "panic:rtx-rewrite",
+				"what": "process died while this RTX packet was being unwrapped / read", "detail": f.detail,
+			}); jerr == nil {
+				saveCurrent(cj)
+			}
+			select {
+			case feed.in <- f.in.raw:
+				readerIdle = false
+			case <-time.After(watchdog):
+				run.Inconclusive("repair-reader-not-reading")
+
+				return false
+			}
+			if !waitIdle() {
+				run.Inconclusive("repair-reader-stuck")
+
+				return false
+			}
+
+			return true
+		}
+
+		var pending *c26Fed // an RTX packet that arrived while the primary stream of its layer was still unbound
+		abort := ""
+		if ridMode { //nolint:nestif
+			hist = c26GenHistory(r, primarySSRC, rtxSSRC)
+			histClass = hist.Class()
+			if hist.repairFirst {
+				bindTag = "@repair-bound-first"
+				if hist.eagerR {
+					bindTag += "-eager"
+				}
+			}
+			encs := make([]RTPDecodingParameters, len(hist.rids))
+			for j, rid := range hist.rids {
+				encs[j] = RTPDecodingParameters{RTPCodingParameters: RTPCodingParameters{RID: rid}}
+			}
+			receiver.configureReceive(RTPReceiveParameters{Encodings: encs})
 			close(receiver.received)
-			rid := kit.Pick(r, []string{"lo", "hi"})
 			params, perr := api.mediaEngine.getRTPParametersByPayloadType(PayloadType(curPT))
 			if perr != nil {
 				run.Inconclusive("params-error")
+				cleanup()
 
 				continue
 			}
-			track, setupErr = receiver.receiveForRid(rid, params, &interceptor.StreamInfo{SSRC: primarySSRC}, nil, primary, false, nil, nil, nil)
-			if setupErr == nil {
-				setupErr = receiver.receiveForRtx(0, rid, &interceptor.StreamInfo{SSRC: rtxSSRC}, nil, feed, immediate, nil, nil)
+			targetBound := 0
+			for _, op := range hist.ops {
+				if setupErr != nil || abort != "" {
+					break
+				}
+				info := &interceptor.StreamInfo{SSRC: op.ssrc}
+				switch {
+				case op.target && !op.repair:
+					track, setupErr = receiver.receiveForRid(op.rid, params, info, nil, primary, op.eager, nil, nil, nil)
+					targetBound++
+					if setupErr == nil && track != nil && targetBound == 1 {
+						// the application got the track from OnTrack and reads it before the repair stream shows up
+						for j := 0; j < hist.readsBetween && abort == ""; j++ {
+							if !readSentinel() {
+								abort = "first-primary-read-failed"
+							}
+							modelPT = curPT
+						}
+					}
+				case op.target:
+					setupErr = receiver.receiveForRtx(0, op.rid, info, nil, feed, op.eager, nil, nil)
+					targetBound++
+					if setupErr == nil && targetBound == 1 && hist.early {
+						// the repair reader runs already: a retransmission arrives before the primary stream is bound
+						if !waitIdle() {
+							abort = "repair-reader-never-started"
+
+							break
+						}
+						if pending = prepare(0); pending != nil && !send(pending) {
+							abort = "early-rtx-not-taken"
+						}
+					}
+				case !op.repair:
+					ssrc := op.ssrc
+					other := &c26Primary{pkt: func() []byte { return c26Sentinel(curPT, ssrc) }}
+					_, setupErr = receiver.receiveForRid(op.rid, params, info, nil, other, op.eager, nil, nil, nil)
+				default:
+					setupErr = receiver.receiveForRtx(0, op.rid, info, nil, parked, op.eager, nil, nil)
+				}
 			}
 		} else {
 			receiver.configureReceive(RTPReceiveParameters{Encodings: []RTPDecodingParameters{{RTPCodingParameters: RTPCodingParameters{
@@ -381,100 +662,84 @@ func TestVerifC26(t *testing.T) { //nolint:gocyclo,cyclop,maintidx
 			track = receiver.Track()
 			setupErr = receiver.receiveForRtx(SSRC(rtxSSRC), "", &interceptor.StreamInfo{SSRC: rtxSSRC}, nil, feed, immediate, nil, nil)
 		}
+		if abort != "" {
+			run.Inconclusive(abort)
+			cleanup()
+
+			continue
+		}
 		if setupErr != nil || track == nil {
 			run.Inconclusive("setup-error")
+			cleanup()
 
 			continue
 		}
 		if !track.HasRTX() || uint32(track.RtxSSRC()) != rtxSSRC {
 			run.Inconclusive("track-has-no-rtx")
+			cleanup()
 
 			continue
 		}
 
-		waitIdle := func() bool {
-			select {
-			case <-feed.idle:
-				return true
-			case <-time.After(watchdog):
-				return false
-			}
+		// probe: an RTX packet is read before any primary packet was read (needs a repair reader that runs without a Read)
+		readerEager := immediate
+		if ridMode {
+			readerEager = hist.eagerP || hist.eagerR
 		}
-		buf := make([]byte, mtu)
-		readSentinel := func() bool { // reads one primary packet; returns false if something else came out
-			nn, _, rerr := track.Read(buf)
-
-			return rerr == nil && bytes.Equal(buf[:nn], c26Sentinel(curPT, primarySSRC))
+		rtxFirst := pending != nil
+		if pending == nil && hist.readsBetween == 0 && readerEager {
+			rtxFirst = r.Chance(0.1)
 		}
-		modelPT := uint8(0)
 		ok := true
-		if !rtxFirst {
+		if !rtxFirst && modelPT == 0 {
 			if !readSentinel() {
 				run.Inconclusive("first-primary-read-failed")
+				cleanup()
 
 				continue
 			}
 			modelPT = curPT
 		}
-		if !waitIdle() {
+		if !readerIdle && !waitIdle() {
 			run.Inconclusive("repair-reader-never-started")
+			cleanup()
 
 			continue
 		}
 
 		nPkts := r.Range(8, 24)
 		for k := 0; k < nPkts && ok; k++ {
-			if modelPT != 0 && r.Chance(0.12) { // the primary stream switches payload type
-				curPT = kit.Pick(r, pts)
-				if !readSentinel() {
-					run.Inconclusive("primary-read-failed")
+			var f *c26Fed
+			if k == 0 && pending != nil {
+				f = pending
+				run.Count("rtx_fed_before_primary_bound", 1)
+			} else {
+				if modelPT != 0 && r.Chance(0.12) { // the primary stream switches payload type
+					curPT = kit.Pick(r, pts)
+					if !readSentinel() {
+						run.Inconclusive("primary-read-failed")
+						ok = false
+
+						break
+					}
+					modelPT = curPT
+					run.Count("primary_pt_switches", 1)
+				}
+				if f = prepare(k); f == nil {
+					continue
+				}
+				if !send(f) {
 					ok = false
 
-					break
+					continue
 				}
-				modelPT = curPT
-				run.Count("primary_pt_switches", 1)
 			}
-			in := c26Gen(r, rtxPT, rtxSSRC, mtu)
-			if in.raw == nil {
-				run.Inconclusive("generator-marshal-failed")
-
-				continue
-			}
-			verdict, want, hdrLen, osn, body, pad := c26Expect(in.raw, modelPT, primarySSRC)
-			if verdict == "skip" {
-				run.Count("skipped_header_unparseable", 1)
-
-				continue
-			}
-			desc := fmt.Sprintf("%x pt=%d ssrc=%d", in.raw, modelPT, primarySSRC)
-			detail := map[string]any{
-				"packet_index": k, "rtx_packet": kit.Hex(in.raw), "class": in.class, "layout": in.layout, "track_pt": modelPT, "primary_ssrc": primarySSRC,
-				"rtx_ssrc": rtxSSRC, "rid_mode": ridMode, "start_immediately": immediate, "header_len": hdrLen, "osn": osn, "padding": pad, "expected": kit.Hex(want),
-				"oracle_verdict": verdict,
-			}
-			// crash witness: saved before the packet is handed to the reader goroutine
-			if cj, jerr := json.Marshal(map[string]any{
-				"property": "C26", "seed": kit.Seed(), "tier": kit.Tier(), "case": i, "sig": "panic:rtx-rewrite",
-				"what": "process died while this RTX packet was being unwrapped / read", "detail": detail,
-			}); jerr == nil {
-				saveCurrent(cj)
-			}
-
-			select {
-			case feed.in <- in.raw:
-			case <-time.After(watchdog):
-				run.Inconclusive("repair-reader-not-reading")
-				ok = false
-
-				continue
-			}
-			if !waitIdle() {
-				run.Inconclusive("repair-reader-stuck")
-				ok = false
-
-				continue
-			}
+			// probePT: the track has not seen a primary packet yet, it cannot know the primary payload type;
+			// probeSSRC: the packet was unwrapped while the primary stream was unbound, the receiver could not know its SSRC
+			probePT := rtxFirst && k == 0
+			probeSSRC := pending != nil && k == 0
+			in, verdict, want, hdrLen, osn, body, pad, detail := f.in, f.verdict, f.want, f.hdrLen, f.osn, f.body, f.pad, f.detail
+			desc := fmt.Sprintf("%x pt=%d ssrc=%d", in.raw, f.trackPT, primarySSRC)
 
 			// one read: the unwrapped packet, or the sentinel when nothing was queued
 			for j := range buf {
@@ -499,7 +764,7 @@ func TestVerifC26(t *testing.T) { //nolint:gocyclo,cyclop,maintidx
 			}
 			delivered := got != nil || parsed != nil
 			if rerr != nil && !(useReadRTP && verdict == "unjudged") {
-				run.Violation("read-error", fmt.Sprintf("TrackRemote read returned %v after feeding a %s RTX packet (%s)", rerr, in.class, in.layout), i, detail)
+				run.Violation("read-error", fmt.Sprintf("TrackRemote read returned %v after feeding a %s RTX packet (%s; %s)", rerr, in.class, in.layout, histClass), i, detail)
 				ok = false
 
 				continue
@@ -545,27 +810,57 @@ func TestVerifC26(t *testing.T) { //nolint:gocyclo,cyclop,maintidx
 					run.Count("inconsistent_padding_dropped", 1)
 				}
 			case "deliver":
+				if !delivered && probeSSRC {
+					// the statement speaks about the packet Read delivers; whether a retransmission that arrived before its
+					// primary stream was known is kept at all is not part of it
+					run.Count("model_divergence", 1)
+					run.Count("rtx_fed_before_primary_bound_not_delivered", 1)
+
+					break
+				}
 				if !delivered {
-					run.Violation("valid-rtx-not-delivered:"+c26LayoutSig(in.raw), fmt.Sprintf("a well-formed RTX packet (%s, body %d bytes) produced nothing on TrackRemote.Read", in.layout, len(body)), i, detail)
+					run.Violation("valid-rtx-not-delivered:"+c26LayoutSig(in.raw)+bindTag, fmt.Sprintf("a well-formed RTX packet (%s, body %d bytes) produced nothing on TrackRemote.Read (%s)",
+						in.layout, len(body), histClass), i, detail)
 
 					continue
 				}
-				wantPT := modelPT
-				if rtxFirst && k == 0 {
+				wantPT, wantSSRC := modelPT, primarySSRC
+				if probePT {
 					// probe: no primary packet was read yet, the track does not know the primary PT
+					gotPT := uint8(0)
 					if got != nil {
-						if got[1]&0x7F != curPT {
-							run.Count("model_divergence", 1)
-							run.Seen("rtx_before_first_primary_packet_delivered_with_pt", fmt.Sprint(got[1]&0x7F))
-						}
-						want[1] = want[1]&0x80 | got[1]&0x7F
+						gotPT = got[1] & 0x7F
+						want[1] = want[1]&0x80 | gotPT
 					} else {
-						if parsed.PayloadType != curPT {
-							run.Count("model_divergence", 1)
-							run.Seen("rtx_before_first_primary_packet_delivered_with_pt", fmt.Sprint(parsed.PayloadType))
-						}
-						wantPT = parsed.PayloadType
+						gotPT = parsed.PayloadType
 					}
+					if gotPT != curPT {
+						run.Count("model_divergence", 1)
+						run.Seen("rtx_before_first_primary_packet_delivered_with_pt", fmt.Sprint(gotPT))
+					}
+					wantPT = gotPT
+				}
+				if probeSSRC {
+					gotSSRC := uint32(0)
+					if got != nil {
+						if len(got) >= 12 {
+							gotSSRC = binary.BigEndian.Uint32(got[8:12])
+							binary.BigEndian.PutUint32(want[8:], gotSSRC)
+						}
+					} else {
+						gotSSRC = parsed.SSRC
+					}
+					switch gotSSRC {
+					case primarySSRC:
+						run.Seen("rtx_fed_before_primary_bound_delivered_with_ssrc", "primary")
+					case 0:
+						run.Count("model_divergence", 1)
+						run.Seen("rtx_fed_before_primary_bound_delivered_with_ssrc", "0")
+					default:
+						run.Count("model_divergence", 1)
+						run.Seen("rtx_fed_before_primary_bound_delivered_with_ssrc", "other")
+					}
+					wantSSRC = gotSSRC
 				}
 				if got != nil {
 					detail["delivered"] = kit.Hex(got)
@@ -574,31 +869,32 @@ func TestVerifC26(t *testing.T) { //nolint:gocyclo,cyclop,maintidx
 							run.Count("model_divergence", 1)
 							run.Count("padding_stripped_consistently", 1)
 						} else {
-							run.Violation(sig+":"+c26LayoutSig(in.raw), fmt.Sprintf("unwrapped packet wrong: %s (%s; track PT %d SSRC %d; OSN %d; body %d bytes; padding %d)",
-								what, in.layout, modelPT, primarySSRC, osn, len(body), pad), i, detail)
+							run.Violation(c26Sig(sig, in.raw, ridMode, bindTag), fmt.Sprintf("unwrapped packet wrong: %s (%s; track PT %d SSRC %d; OSN %d; body %d bytes; padding %d; binding %s)",
+								what, in.layout, wantPT, wantSSRC, osn, len(body), pad, histClass), i, detail)
 						}
 					}
 				} else {
-					var why []string
+					var why, keys []string
 					var wh rtp.Header
 					_, _ = wh.Unmarshal(in.raw)
 					if parsed.SequenceNumber != osn {
-						why = append(why, fmt.Sprintf("seq %d != OSN %d", parsed.SequenceNumber, osn))
-					}
-					if parsed.SSRC != primarySSRC {
-						why = append(why, fmt.Sprintf("ssrc %d != %d", parsed.SSRC, primarySSRC))
+						why, keys = append(why, fmt.Sprintf("seq %d != OSN %d", parsed.SequenceNumber, osn)), append(keys, "sequence-number-not-osn")
 					}
 					if parsed.PayloadType != wantPT {
-						why = append(why, fmt.Sprintf("pt %d != %d", parsed.PayloadType, wantPT))
+						why, keys = append(why, fmt.Sprintf("pt %d != %d", parsed.PayloadType, wantPT)), append(keys, "payload-type-not-primary")
+					}
+					if parsed.SSRC != wantSSRC {
+						why, keys = append(why, fmt.Sprintf("ssrc %d != %d", parsed.SSRC, wantSSRC)), append(keys, "ssrc-not-primary")
 					}
 					if !bytes.Equal(parsed.Payload, body) {
 						why = append(why, fmt.Sprintf("payload (%d bytes) != body (%d bytes)", len(parsed.Payload), len(body)))
+						keys = append(keys, "payload-not-rtx-body")
 					}
 					if parsed.Marker != wh.Marker || parsed.Timestamp != wh.Timestamp || parsed.Version != wh.Version {
-						why = append(why, "marker/timestamp/version changed")
+						why, keys = append(why, "marker/timestamp/version changed"), append(keys, "header-field-changed")
 					}
 					if fmt.Sprint(parsed.CSRC) != fmt.Sprint(wh.CSRC) {
-						why = append(why, "csrc changed")
+						why, keys = append(why, "csrc changed"), append(keys, "header-field-changed")
 					}
 					ph, whh := parsed.Header.Clone(), wh.Clone()
 					ph.SSRC, ph.PayloadType, ph.SequenceNumber, ph.PaddingSize, ph.Padding = 0, 0, 0, 0, false
@@ -606,14 +902,16 @@ func TestVerifC26(t *testing.T) { //nolint:gocyclo,cyclop,maintidx
 					pb, _ := ph.Marshal()
 					wb, _ := whh.Marshal()
 					if !bytes.Equal(pb, wb) {
-						why = append(why, "header wire image (extension) changed")
+						why, keys = append(why, "header wire image (extension) changed"), append(keys, "header-field-changed")
 					}
 					if parsed.Padding != (pad > 0) || int(parsed.Header.PaddingSize) != pad {
 						why = append(why, fmt.Sprintf("padding %v/%d != %d", parsed.Padding, parsed.Header.PaddingSize, pad))
+						keys = append(keys, "padding-changed")
 					}
 					if len(why) > 0 {
 						detail["delivered_parsed"] = parsed.String()
-						run.Violation("readrtp-fields-wrong:"+c26LayoutSig(in.raw), "ReadRTP result wrong: "+strings.Join(why, "; ")+" ("+in.layout+")", i, detail)
+						run.Violation(c26Sig("readrtp-"+keys[0], in.raw, ridMode, bindTag),
+							"ReadRTP result wrong: "+strings.Join(why, "; ")+" ("+in.layout+"; binding "+histClass+")", i, detail)
 					}
 				}
 				// attributes are not part of the statement: recorded only
@@ -625,9 +923,20 @@ func TestVerifC26(t *testing.T) { //nolint:gocyclo,cyclop,maintidx
 					run.Count("rtx_attributes_ok", 1)
 				}
 				run.Count("delivered_and_checked", 1)
-				if i < 30 && nontrivial && k < 2 {
+				if !probeSSRC {
+					run.Seen("ssrc_judged_under_binding", histClass)
+				}
+				wantSample := false
+				if nontrivial && k < 2 && ridMode && hist.repairFirst && !probeSSRC && samplesRepairFirst < 2 {
+					samplesRepairFirst++
+					wantSample = true
+				} else if nontrivial && k < 2 && i < 30 && samplesGeneric < 3 {
+					samplesGeneric++
+					wantSample = true
+				}
+				if wantSample {
 					run.Sample(map[string]any{"layout": in.layout, "rtx_packet_prefix": kit.Hex(in.raw[:min(len(in.raw), hdrLen+8)]), "len": len(in.raw), "osn": osn,
-						"track_pt": modelPT, "delivered_prefix": kit.Hex(want[:min(len(want), hdrLen+6)]), "rid_mode": ridMode})
+						"track_pt": wantPT, "delivered_prefix": kit.Hex(want[:min(len(want), hdrLen+6)]), "rid_mode": ridMode, "binding": histClass})
 				}
 			}
 			if rtxFirst && k == 0 && modelPT == 0 { // end of the probe: let the track learn the primary PT
@@ -638,13 +947,23 @@ func TestVerifC26(t *testing.T) { //nolint:gocyclo,cyclop,maintidx
 				modelPT = curPT
 			}
 		}
-		close(feed.in)
-		_ = receiver.Stop()
+		cleanup()
 		if _, _, rerr := track.Read(buf); rerr != io.EOF {
 			run.Count("read_after_stop_not_eof", 1)
 		}
 		if ridMode {
 			run.Count("receivers_rid_mode", 1)
+			run.Seen("rid_binding_history", histClass)
+			run.Seen("rid_layers_and_binds", fmt.Sprintf("layers=%d binds=%d", len(hist.rids), len(hist.ops)))
+			if hist.repairFirst {
+				run.Count("receivers_rid_repair_bound_first", 1)
+				if hist.eagerR {
+					run.Count("receivers_rid_repair_bound_first_eager_reader", 1)
+				}
+			}
+			if hist.readsBetween > 0 {
+				run.Count("receivers_rid_read_before_repair_bound", 1)
+			}
 		}
 		if rtxFirst {
 			run.Count("receivers_rtx_before_primary", 1)
@@ -655,6 +974,24 @@ func TestVerifC26(t *testing.T) { //nolint:gocyclo,cyclop,maintidx
 		_ = curFile.Close()
 	}
 	_ = os.Remove(current)
+}
+
+// c26Sig builds the cause signature of a wrongly unwrapped packet. Offsets and lengths go wrong per header layout, so
+// those symptoms are qualified by the layout; which stream's SSRC / payload type is written depends on how the streams
+// became known to the receiver, so those are qualified by the binding class instead.
+func c26Sig(symptom string, raw []byte, ridMode bool, bindTag string) string {
+	if strings.HasSuffix(symptom, "ssrc-not-primary") || strings.HasSuffix(symptom, "payload-type-not-primary") {
+		switch {
+		case !ridMode:
+			return symptom + "@ssrc-declared"
+		case bindTag == "":
+			return symptom + "@rid-primary-bound-first"
+		default:
+			return symptom + "@rid-" + strings.TrimPrefix(bindTag, "@")
+		}
+	}
+
+	return symptom + ":" + c26LayoutSig(raw) + bindTag
 }
 
 // c26LayoutSig names the header layout of a packet: the cause class of a rewrite error.
